@@ -15,7 +15,7 @@ SPEC = dict(
          'onAccepted and onConnected additionally act on the client they are handed before returning its callback object (nothing / write / suspend / suspend+write / write+suspend, the write '
          'with a forced partial / EAGAIN / hard-error send or left to the kernel) and the peer talks at once; '
          'EINTR and oversleep injected into epoll_wait. equal-due: enumerated - n timers due in the same tick, timer i removes timer j at its first activation (all n<=N, i, j, with/without slot reuse). '
-         'threads: 1..3 threads call interrupt() at seeded real offsets while run() polls (plain and tsan builds). '
+         'threads: 1..3 threads call interrupt() at seeded real offsets while run() polls (plain and tsan builds); a completed interrupt() after which the loop thread stays parked in epoll_wait, never scheduled, for 30+5 s is a lost wake-up (bounded progress decided on /proc scheduler state, anything else that slow is inconclusive). '
          'distinct = hash of the callback/action sequence; non-trivial = at least one removal and three callbacks (threads: at least two run() returns). '
          'Checked on every callback: object alive, timer not early / ordered; on every poll: no due timer left, timeout within next due, interrupt honoured; '
          'at every idle point: independent poll() on every registered fd vs. the loop\'s poll set, failed I/O followed by onClosed, backlog accounting.',
